@@ -192,6 +192,8 @@ func TransferCorpus() []Conv {
 		// skipped whatever happens while it arrives
 		out = append(out, newConv("bdat-refused-no-envelope", mode, 0).raw("BDAT 40\r\nMAIL FROM:<bait@x.example>\r\nNOOP\r\nNOOP\r\n", 1).cmd("NOOP").cmd("QUIT").done())
 		out = append(out, newConv("bdat-refused-bad-last", mode, 0).envelope().raw("BDAT 26 LAS\r\nRSET\r\nNOOP\r\nNOOP\r\nVRFY x\r\n", 1).cmd("NOOP").cmd("QUIT").done())
+		// "BDAT <size that does not parse> LAST" is refused; the chunk behind it is an ordinary chunk, not the last one
+		out = append(out, newConv("bdat-malformed-last-then-chunk", mode, 0).envelope().raw("BDAT 5x LAST\r\n", 1).bdat([][]byte{[]byte("part on"), []byte("e more")}, true).cmd("NOOP").done())
 		out = append(out, newConv("bdat-then-data", mode, 0).envelope().bdat([][]byte{[]byte("m1")}, false).envelope().data([]byte("m2\r\n.\r\n")).cmd("QUIT").done())
 		// abandoned transfers
 		for _, ab := range []string{"RSET", "QUIT", strings.TrimSuffix(hello(mode), "\r\n"), "NOOP", "MAIL FROM:<ok@c.example>", "DATA"} {
